@@ -5,6 +5,7 @@ P = dict(
         dict(module="MC_C03", quick_cfg="MC_C03_d22.cfg", expect_violation=True, coverage=False),
         dict(module="MC_C03", thorough_cfg="MC_C03_thorough.cfg", thorough_timeout=3000)],
     drift_checked=True,
+    proofs=["Proof_C03"],
     required_events=["stack", "op"],
     level_text="TLC model-checks the transcribed lowering of every adapter (incl. the contiguous::Cropped iterator machine) "
                "against the abstract set-theoretic Effect for all stacks of depth <= 2 over small parameter sets and an "
